@@ -5,7 +5,7 @@ import json
 import os
 
 from cfg import Inconclusive, op_place, show, walk, strip_casts
-from common import (calls_to, callee, closure_creations, field_chain, fn_of, get_fn, peel, site, guards_of,
+from common import (resolve_capture, calls_to, callee, closure_creations, field_chain, fn_of, get_fn, peel, site, guards_of,
                     ret_aggregates)
 from engine import VERIF
 
@@ -48,60 +48,82 @@ def table(ctx, path):
 
 
 def extract_dispatch(ctx):
-    """Decision-list extraction of `normalize`: [(lo, hi, 'id' | ('table', static_path, base))]."""
+    """Decision-list extraction of `normalize`: [(lo, hi, 'id' | ('table', static_path, base))].
+    Every flow-sensitive decision path of the (loop-free) body is turned into the interval of scalars that takes it
+    (conditions must be comparisons of c with constants, in any form: if-chains, range patterns, helper closures)
+    and its leaf (c itself, or TABLE[c - base])."""
+    from cfg import decision_paths, poly_of, Poly
     fn = get_fn(ctx.facts, M, NORM)
     out = []
 
-    def walk_bb(bb, lo, hi, depth=0):
-        if lo > hi:
-            return
-        if depth > 64:
-            raise Inconclusive("normalize: dispatch too deep")
-        blk = fn.blocks[bb]
-        t = blk["term"]
-        # leaf?
-        for s in blk["stmts"]:
-            if s["k"] == "assign" and s["lhs"]["l"] == 0 and not s["lhs"]["p"]:
-                e = fn.expr_of_rvalue(s["rv"])
-                if e[0] == "arg" and e[1] == 1:
-                    out.append((lo, hi, "id"))
-                    return
-                if e[0] == "index":
-                    base_e = peel(e[1])
-                    idx = e[2]
-                    if base_e[0] == "static" and idx[0] in ("bin", "checked") and idx[1] == "Sub":
-                        a = strip_casts(idx[2])
-                        b = strip_casts(idx[3])
-                        if a[0] == "arg" and a[1] == 1 and b[0] == "const" and isinstance(b[1], int):
-                            out.append((lo, hi, ("table", base_e[1], b[1])))
-                            return
-                raise Inconclusive("normalize: leaf %s is neither `c` nor TABLE[c - base]" % show(e))
-        if t["k"] == "switch":
-            e = fn.expr_of_operand(t["discr"])
-            if not (e[0] == "bin" and e[1] in ("Lt", "Le", "Gt", "Ge") and strip_casts(e[2])[0] == "arg" and e[3][0] == "const" and isinstance(e[3][1], int)):
-                raise Inconclusive("normalize: branch condition %s is not a comparison of c with a constant" % show(e))
-            K = e[3][1]
-            op = e[1]
-            if op == "Lt":
-                tr, fa = (lo, min(hi, K - 1)), (max(lo, K), hi)
-            elif op == "Le":
-                tr, fa = (lo, min(hi, K)), (max(lo, K + 1), hi)
-            elif op == "Ge":
-                tr, fa = (max(lo, K), hi), (lo, min(hi, K - 1))
-            else:
-                tr, fa = (max(lo, K + 1), hi), (lo, min(hi, K))
-            false_t = [b_ for v, b_ in t["arms"] if v == 0][0]
-            walk_bb(t["otherwise"], tr[0], tr[1], depth + 1)
-            walk_bb(false_t, fa[0], fa[1], depth + 1)
-            return
-        if t["k"] in ("goto", "assert", "call"):
-            walk_bb(t["target"], lo, hi, depth + 1)
-            return
-        raise Inconclusive("normalize: unexpected terminator %s" % t["k"])
+    def is_c(x):
+        x = strip_casts(x)
+        while x[0] in ("ref", "deref"):
+            x = strip_casts(x[1])
+        return x[0] == "arg" and x[1] == 1
 
-    walk_bb(0, 0, MAXC)
+    def konst(x):
+        x = strip_casts(x)
+        return x[1] if x[0] == "const" and isinstance(x[1], int) and not isinstance(x[1], bool) else None
+
+    for conds, res in decision_paths(fn):
+        lo, hi = 0, MAXC
+        for d, chosen, allv in conds:
+            d = strip_casts(d)
+            if d[0] == "overflowflag":
+                continue
+            if not (d[0] == "bin" and d[1] in ("Lt", "Le", "Gt", "Ge", "Eq", "Ne")):
+                raise Inconclusive("normalize: branch condition %s is not a comparison of c with a constant" % show(d))
+            truth = (chosen != 0) if chosen is not None else True
+            op, x, y = d[1], d[2], d[3]
+            if is_c(x) and konst(y) is not None:
+                K = konst(y)
+            elif is_c(y) and konst(x) is not None:
+                K = konst(x)
+                op = {"Lt": "Gt", "Le": "Ge", "Gt": "Lt", "Ge": "Le", "Eq": "Eq", "Ne": "Ne"}[op]
+            else:
+                raise Inconclusive("normalize: branch condition %s is not a comparison of c with a constant" % show(d))
+            if not truth:
+                op = {"Lt": "Ge", "Le": "Gt", "Gt": "Le", "Ge": "Lt", "Eq": "Ne", "Ne": "Eq"}[op]
+            if op == "Lt":
+                hi = min(hi, K - 1)
+            elif op == "Le":
+                hi = min(hi, K)
+            elif op == "Gt":
+                lo = max(lo, K + 1)
+            elif op == "Ge":
+                lo = max(lo, K)
+            elif op == "Eq":
+                lo, hi = max(lo, K), min(hi, K)
+            else:
+                raise Inconclusive("normalize: `!=` condition splits the range")
+        if lo > hi:
+            continue  # infeasible path
+        if res is None:
+            raise Inconclusive("normalize: path without a result")
+        r = strip_casts(res)
+        if is_c(r):
+            out.append((lo, hi, "id"))
+            continue
+        if r[0] == "index":
+            base_e = peel(r[1])
+            idx = poly_of(r[2], lambda x: "c" if is_c(x) else None)
+            if base_e[0] == "static" and not idx.has_opaque():
+                off = idx - Poly.atom("c")
+                if not off.atoms():
+                    base = -int(off.t.get((), 0))
+                    out.append((lo, hi, ("table", base_e[1], base)))
+                    continue
+        raise Inconclusive("normalize: leaf %s is neither `c` nor TABLE[c - base]" % show(res)[:160])
     out.sort()
-    return fn, out
+    # merge adjacent intervals with the same leaf
+    merged = []
+    for lo, hi, kind in out:
+        if merged and merged[-1][2] == kind and merged[-1][1] + 1 == lo:
+            merged[-1] = (merged[-1][0], hi, kind)
+        else:
+            merged.append((lo, hi, kind))
+    return fn, merged
 
 
 def rule_dispatch(ctx):
@@ -137,49 +159,164 @@ def rule_dispatch(ctx):
         if not (in_blocks(lo) or any(l <= lo for l, h, _ in BLOCKS)):
             pass
     ctx.floor("table-backed intervals of normalize", ntab, 3)
-    # fold: binary search keyed on .0, value .1
-    for name in ("chars::to_lower_case", "chars::is_upper_case"):
+    # fold: to_lower_case / is_upper_case as functions of "c has an entry in the fold table" (whatever the spelling:
+    # binary_search_by_key / binary_search_by, map_or / match / ok() / is_ok() / helper functions)
+    from cfg import decision_paths
+    for name, want in (("chars::to_lower_case", {True: ("VALUE",), False: ("C",)}), ("chars::is_upper_case", {True: 1, False: 0})):
         f = get_fn(ctx.facts, M, name)
-        bs = [(bi, t) for bi, t in f.calls(lambda t: callee(t).endswith("binary_search_by_key"))]
+        bs = [(bi, t) for bi, t in f.calls(lambda t: any(callee(t).endswith(x) for x in ("binary_search_by_key", "binary_search_by", "::binary_search")))]
         if len(bs) != 1:
-            ctx.violation("%s|lookup|1" % name, site(f, 0), "%s is not a single binary_search_by_key over the fold table" % name)
+            ctx.violation("%s|lookup|1" % name, site(f, 0), "%s is not a single binary search over the fold table (%d found)" % (name, len(bs)))
             continue
         bi, t = bs[0]
         tb = peel(f.expr_of_operand(t["args"][0]))
-        key = peel(f.expr_of_operand(t["args"][1]))
-        clo = f.expr_of_operand(t["args"][2])
-        okk = tb[0] in ("const", "constx") and (tb[2] == FOLD_TABLE if tb[0] == "const" else tb[1] == FOLD_TABLE)
-        okkey = key[0] == "arg" and key[1] == 1
-        okclo = False
-        if clo[0] == "closure":
-            cf = get_fn(ctx.facts, M, clo[1])
-            r = ret_aggregates(cf)
-            if len(r) == 1:
-                e = cf.expr_of_rvalue(r[0][2])
-                e = peel(e)
-                if e[0] == "field" and e[2] == "0":
-                    okclo = True
-        if okk and okkey and okclo:
-            ctx.ok(site(f, bi), "%s: binary search of c in CASE_FOLDING_SIMPLE keyed on the first tuple component" % name)
+        okk = (tb[0] == "static" and tb[1] == FOLD_TABLE) or (tb[0] in ("const", "constx") and FOLD_TABLE in (tb[1], tb[2] if len(tb) > 2 else None))
+        okkey = False
+        how = callee(t).rsplit("::", 1)[-1]
+
+        def is_c(x):
+            x = peel(x)
+            while x[0] in ("ref", "deref"):
+                x = peel(x[1])
+            return x[0] == "arg" and x[1] == 1
+        if how == "binary_search_by_key":
+            clo = f.expr_of_operand(t["args"][2])
+            if is_c(f.expr_of_operand(t["args"][1])) and clo[0] == "closure":
+                cf = get_fn(ctx.facts, M, clo[1])
+                r = ret_aggregates(cf)
+                if len(r) == 1:
+                    e = peel(cf.expr_of_rvalue(r[0][2]))
+                    okkey = e[0] == "field" and e[2] == "0"
+        elif how == "binary_search_by":
+            clo = f.expr_of_operand(t["args"][1])
+            if clo[0] == "closure":
+                cf = get_fn(ctx.facts, M, clo[1])
+                cmps = [(cb, ct) for cb, ct in cf.calls(lambda t: callee(t).endswith("::cmp"))]
+                if len(cmps) == 1 and cmps[0][1]["dest"]["l"] == 0:
+                    x = peel(cf.expr_of_operand(cmps[0][1]["args"][0]))
+                    y = cf.expr_of_operand(cmps[0][1]["args"][1])
+                    # element.0 .cmp( &captured c )  -- this orientation, not the reverse
+                    ycap = [z for z in walk(y) if z[0] == "field" and peel(z[1])[0] == "arg" and peel(z[1])[1] == 1]
+                    capt = False
+                    for z in ycap:
+                        rc = resolve_capture(cf, z[2])
+                        if rc is not None and is_c(rc[1]):
+                            capt = True
+                    okkey = x[0] == "field" and x[2] == "0" and capt
+        if okk and okkey:
+            ctx.ok(site(f, bi), "%s: binary search (%s) of c in CASE_FOLDING_SIMPLE on the first tuple component" % (name, how))
         else:
-            ctx.violation("%s|lookup|2" % name, site(f, bi), "lookup is not `CASE_FOLDING_SIMPLE.binary_search_by_key(&c, |(k, _)| *k)` (table %s key %s closure-key-ok %s)" % (okk, okkey, okclo))
-    f = get_fn(ctx.facts, M, "chars::to_lower_case")
-    mo = [(bi, t) for bi, t in f.calls(lambda t: callee(t).endswith("::map_or"))]
-    okv = False
-    if mo:
-        d = f.expr_of_operand(mo[0][1]["args"][1])
-        clo = f.expr_of_operand(mo[0][1]["args"][2])
-        if d[0] == "arg" and d[1] == 1 and clo[0] == "closure":
-            cf = get_fn(ctx.facts, M, clo[1])
-            r = ret_aggregates(cf)
-            if len(r) == 1:
-                e = cf.expr_of_rvalue(r[0][2])
-                if e[0] == "field" and e[2] == "1" and e[1][0] == "index":
-                    okv = True
-    if okv:
-        ctx.ok(site(f, 0), "to_lower_case(c) = table[idx].1 if found else c")
-    else:
-        ctx.violation("chars::to_lower_case|value|1", site(f, 0), "to_lower_case does not return `found ? table[idx].1 : c`")
+            ctx.violation("%s|lookup|2" % name, site(f, bi), "lookup is not a binary search of c in CASE_FOLDING_SIMPLE on the key component (table ok: %s, key ok: %s, form: %s)" % (okk, okkey, how))
+            continue
+        bsid = (bi, t["dest"]["l"])
+
+        class _U(Exception):
+            pass
+
+        def lk(e, found, carg=None):
+            e = peel(e) if e[0] in ("ref", "deref") else e
+            k = e[0]
+            if k == "const":
+                return int(e[1]) if isinstance(e[1], (bool, int)) else _raise("const")
+            if k == "arg":
+                if carg is not None and e[1] == 2:
+                    return carg
+                if carg is None and e[1] == 1:
+                    return ("C",)
+                raise _U("parameter")
+            if k in ("ref", "deref", "cast"):
+                return lk(e[2] if k == "cast" else e[1], found, carg)
+            if k == "call":
+                nm = str(e[1])
+                short = nm.rsplit("::", 1)[-1]
+                if len(e) > 4 and e[4] == bsid:
+                    return ("R",)
+                if short in ("ok",) and "Result" in nm:
+                    v = lk(e[2][0], found, carg)
+                    return ("OPT",) if v == ("R",) else _raise("ok of %s" % (v,))
+                if short in ("is_ok", "is_some"):
+                    v = lk(e[2][0], found, carg)
+                    if v in (("R",), ("OPT",)):
+                        return int(found)
+                if short in ("is_err", "is_none"):
+                    v = lk(e[2][0], found, carg)
+                    if v in (("R",), ("OPT",)):
+                        return int(not found)
+                if short == "map_or":
+                    v = lk(e[2][0], found, carg)
+                    if v in (("R",), ("OPT",)):
+                        if not found:
+                            return lk(e[2][1], found, carg)
+                        clo = e[2][2]
+                        if clo[0] == "closure":
+                            cf2 = get_fn(ctx.facts, M, clo[1])
+                            r2 = ret_aggregates(cf2)
+                            if len(r2) == 1:
+                                return lk(cf2.expr_of_rvalue(r2[0][2]), found, ("IDX",))
+                raise _U("call of %s" % nm)
+            if k == "discr":
+                v = lk(e[1], found, carg)
+                if v == ("R",):
+                    return 0 if found else 1
+                if v == ("OPT",):
+                    return 1 if found else 0
+                raise _U("discriminant")
+            if k == "downcast":
+                return lk(e[1], found, carg)
+            if k == "field":
+                base = e[1]
+                b0 = peel(base) if base[0] in ("ref", "deref") else base
+                if b0[0] == "index":
+                    arr = peel(b0[1])
+                    ix = lk(b0[2], found, carg)
+                    is_tab = (arr[0] == "static" and arr[1] == FOLD_TABLE) or (arr[0] in ("const", "constx") and FOLD_TABLE in arr[1:3])
+                    if is_tab and ix == ("IDX",) and e[2] == "1":
+                        return ("VALUE",)
+                    raise _U("table read")
+                v = lk(base, found, carg)
+                if v in (("R",), ("OPT",)) and e[2] == "0":
+                    if not found:
+                        raise _U("index read on the not-found path")
+                    return ("IDX",)
+                raise _U("field")
+            if k == "un" and e[1] == "Not":
+                return int(not lk(e[2], found, carg))
+            raise _U(k)
+
+        def _raise(m):
+            raise _U(m)
+
+        okv = True
+        why = ""
+        try:
+            for found in (True, False):
+                hits = []
+                for conds, res in decision_paths(f):
+                    feas = True
+                    for d, chosen, allv in conds:
+                        if d[0] == "overflowflag":
+                            continue
+                        v = lk(d, found)
+                        if isinstance(v, tuple):
+                            raise _U("branch on %s" % (v,))
+                        if (chosen is not None and v != chosen) or (chosen is None and v in allv):
+                            feas = False
+                            break
+                    if feas:
+                        hits.append(res)
+                if len(hits) != 1:
+                    raise _U("%d paths for found=%s" % (len(hits), found))
+                got = lk(hits[0], found)
+                if got != want[found]:
+                    okv = False
+                    why = "when c %s an entry the result is %s, expected %s" % ("has" if found else "has no", got, want[found])
+        except _U as ex:
+            ctx.violation("%s|value|1" % name, site(f, 0), "%s is not `found ? table[idx].1 : c` / `found` in a recognisable form (%s)" % (name, ex))
+            continue
+        if okv:
+            ctx.ok(site(f, 0), "%s(c) = %s" % (name, "table[idx].1 if c has an entry else c" if name.endswith("to_lower_case") else "c has an entry"))
+        else:
+            ctx.violation("%s|value|1" % name, site(f, 0), "%s: %s" % (name, why))
 
 
 def rule_table_algebra(ctx):
